@@ -76,6 +76,10 @@ func main() {
 	}
 
 	g := grammar.(*ast.Grammar)
+	if err := g.LexPart.UndefinedRegDef(); err != nil {
+		fmt.Printf("Error: %s\n", err)
+		os.Exit(1)
+	}
 
 	gSymbols := symbols.NewSymbols(g)
 	if cfg.Verbose() {
